@@ -1,7 +1,7 @@
 SPECIFICATION ISpec
 CONSTANTS
-  BigOnly = FALSE
-  N = 2
+  BigOnly = TRUE
+  N = 5
   MaxAccounts = 3
   MaxOps = 3
 INVARIANTS CounterLimit ThresholdMeaning OnlyUntouchedVerifies
